@@ -57,6 +57,26 @@ REQUIRED = [
     "Pixman.Props.C04.wrap_segment_in_buffer",
     "Pixman.Props.C04.normalStep_safe",
     "Pixman.Props.C04.normalLoop_safe",
+    # projective sources, interior pixels: exact convex-hull statement + the one unit of rounding slack
+    "Pixman.Props.C04.projective_between",
+    "Pixman.Props.C04.projective_interior_within_one",
+    # S8: trapezoid rasteriser stays inside columns [0,width) of rows [0,height) (clamps regenerated: Gen/EdgeClamps)
+    "Pixman.Props.C04.row1_clamps",
+    "Pixman.Props.C04.row4_clamps",
+    "Pixman.Props.C04.row8Fill_clamps",
+    "Pixman.Props.C04.trapSetup_clamps_first_last",
+    "Pixman.Props.C04.trapezoidSetup_clamps_first_last",
+    "Pixman.Props.C04.spanN_in_row",
+    "Pixman.Props.C04.span8_in_row",
+    "Pixman.Props.C04.span1_in_row",
+    "Pixman.Props.C04.a1_words_in_row_partial",
+    "Pixman.Props.C04.row8Fill_cols",
+    "Pixman.Props.C04.fillMid_is_its_calls",
+    "Pixman.Props.C04.flush_cols",
+    "Pixman.Props.C04.rasterizeEdges_in_rows",
+    "Pixman.Props.C04.addTraps_in_image",
+    "Pixman.Props.C04.rasterizeTrapezoid_in_image",
+    "Pixman.Props.C04.addTrapezoids_in_image",
     # S7
     "Pixman.Props.C04.mallocAb_sound",
     "Pixman.Props.C04.mallocAbc_sound",
@@ -216,6 +236,8 @@ RULE = ("extent domain, independent requests: analyze_extent on images {bits 92%
 ASSUMPTIONS = [
     "memory safety of the compiled fetchers, combiners and SIMD loops is a runtime fact: it is observed on the executed guard-page/ASan sweep only (level partial); "
     "the theorems cover the request analysis (cover flags, 16.16 range test), the coordinate arithmetic of the walks, repeat(), pad_repeat_get_scanline_bounds and the allocation size arithmetic",
+    "S8 columns are statements about the indices the row bodies of C12's rasteriser model pass to the array operations (its rows are arrays, an out-of-range modify is a no-op); "
+    "the a1 MASK_BITS walk is modelled to word indices only (bit masks abstracted, a1_words_in_row_partial); widths <= 32767 (larger images are not rasterised into: pixman_int_to_fixed (width) wraps)",
     "S2/S3/S4 are stated for affine transforms (last row 0 0 1.0) and no transform: the cover flags are consulted only by routines that require FAST_PATH_AFFINE_TRANSFORM/SCALE_TRANSFORM or "
     "ID_TRANSFORM (pixman-bits-image.c fetcher table, pixman-fast-path.c, pixman-sse2.c, pixman-ssse3.c, pixman-mmx.c); projective sources always take the bounds-checked general fetchers",
     "pixel storage of an image = height x |stride| bytes starting at the lowest-addressed row (padding bytes between rows belong to the storage)",
